@@ -447,6 +447,8 @@ def c11(ctx, rep):
     from .checks_ip import option_spec_rule
     option_spec_rule(ctx, rep, "C11", only=("--as-numbers",))
     from .checks_pipe import import_clauses, c19 as _c19
+    from .checks_pipe import line_loop_rules as _llr11
+    _llr11(ctx, rep, "C11")  # "digits that are part of a longer number": the stage sees every line whole
     import_clauses(ctx, rep, "C11", "C19", _c19, ("C19.list-options",))  # "equal to a listed AS number": the list reaches the anonymizer as typed (split on ',' only)
     loc_cls = "%s:%d" % (cls.module.relpath, cls.node.lineno)
     # 1. block table
